@@ -40,6 +40,11 @@ func loadBuiltTree(c Config) (*builtTree, error) {
 		}
 		return nil
 	})
+	// the systemd drop-ins of the build: only the full-system-policy option governs them
+	sysRoot := filepath.Join(b.Root(), "systemd")
+	for _, rel := range listFiles(sysRoot) {
+		t.Files["../systemd/"+rel] = readFile(filepath.Join(sysRoot, rel))
+	}
 	return t, nil
 }
 
@@ -442,6 +447,13 @@ func c18Compare(p C18Pair) ([]c18Problem, map[string]int, error) {
 			probs = append(probs, c18Problem{file, fmt.Sprintf(format, a...)})
 		}
 	}
+	dropin := func(f string) bool { return strings.HasPrefix(f, "../systemd/") }
+	onlyOK := func(f string, inA bool) bool {
+		if dropin(f) {
+			return rules.name == "full"
+		}
+		return rules.fileOnlyOK(f, inA)
+	}
 	seenB := map[string]bool{}
 	var names []string
 	for f := range ta.Files {
@@ -460,7 +472,7 @@ func c18Compare(p C18Pair) ([]c18Problem, map[string]int, error) {
 		}
 		if !ok {
 			stats["file-only"]++
-			if !rules.fileOnlyOK(f, true) {
+			if !onlyOK(f, true) {
 				add(f, "present only in %s; the %s option does not govern it", p.A, rules.name)
 			}
 			continue
@@ -468,6 +480,12 @@ func c18Compare(p C18Pair) ([]c18Problem, map[string]int, error) {
 		seenB[other] = true
 		textA := ta.Files[f]
 		if textA == textB {
+			continue
+		}
+		if dropin(f) {
+			if rules.name != "full" {
+				add(f, "the drop-in differs between %s and %s; the %s option does not govern the systemd drop-ins", p.A, p.B, rules.name)
+			}
 			continue
 		}
 		stats["files-differing"]++
@@ -531,7 +549,7 @@ func c18Compare(p C18Pair) ([]c18Problem, map[string]int, error) {
 			continue
 		}
 		stats["file-only"]++
-		if !rules.fileOnlyOK(f, false) {
+		if !onlyOK(f, false) {
 			add(f, "present only in %s; the %s option does not govern it", p.B, rules.name)
 		}
 	}
@@ -597,7 +615,7 @@ func TestC18_Pairs(t *testing.T) {
 	if err := haveBins(); err != nil {
 		t.Fatalf("INFRA: %v", err)
 	}
-	ev := NewEv(t, "C18", "pairs", "pairs of real builds of the shipped tree whose command lines differ in exactly one option (mode, ABI, AppArmor version, distribution, full) - about 330 pairs in thorough, 40 in quick (all 10 distribution pairs at the default ABI / version plus a seeded sample of 30 covering every option); oracle: line-level diff of .build/apparmor.d (LCS per file) and the file-set difference; every differing line or file must fall in a class the changed option governs, decided by an independent tokenizer plus the source tree: mode -> block headers equal but for flags; ABI -> the abi declaration, an AppArmor-4-only rule vs the same text commented out, lines guarded by abiN, overwrite renames and disable/ links; version -> lines guarded by apparmorX.Y, the documented configure additions/removals; distribution -> lines guarded by a distribution or family, files governed by the ignore lists / configure overlay (per the prepare model), header flags of manifest files; full -> exec mode (pu|u)x <-> px on a file rule without target, the _full profiles, the @{p_systemd*} lines, the gstreamer line. Non-trivial: a pair with >= 1 differing line; distinct by (option, file)")
+	ev := NewEv(t, "C18", "pairs", "pairs of real builds of the shipped tree whose command lines differ in exactly one option (mode, ABI, AppArmor version, distribution, full) - about 330 pairs in thorough, about 46 in quick (all 10 distribution pairs and the 6 mode pairs at the default ABI / version plus a seeded sample of 30 covering every option); oracle: line-level diff of .build/apparmor.d (LCS per file) and the file-set difference; every differing line or file must fall in a class the changed option governs, decided by an independent tokenizer plus the source tree: mode -> block headers equal but for flags; ABI -> the abi declaration, an AppArmor-4-only rule vs the same text commented out, lines guarded by abiN, overwrite renames and disable/ links; version -> lines guarded by apparmorX.Y, the documented configure additions/removals; distribution -> lines guarded by a distribution or family, files governed by the ignore lists / configure overlay (per the prepare model), header flags of manifest files; full -> exec mode (pu|u)x <-> px on a file rule without target, the _full profiles, the @{p_systemd*} lines, the gstreamer line, the systemd drop-ins (.build/systemd, which no other option may touch). Non-trivial: a pair with >= 1 differing line; distinct by (option, file)")
 	all := c18Pairs()
 	var pairs []C18Pair
 	if isThorough() {
@@ -610,6 +628,17 @@ func TestC18_Pairs(t *testing.T) {
 		for i, d1 := range allDists {
 			for _, d2 := range allDists[i+1:] {
 				pairs = append(pairs, C18Pair{Config{Dist: d1, ABI: 4, Version: "4.1"}, Config{Dist: d2, ABI: 4, Version: "4.1"}})
+			}
+		}
+		// the three modes against each other at the default configuration, normal and full
+		for _, f := range []bool{false, true} {
+			base := Config{Dist: allDists[seedInt()%len(allDists)], ABI: 4, Version: "4.1", Full: f}
+			for i, m1 := range allModes {
+				for _, m2 := range allModes[i+1:] {
+					a, b := base, base
+					a.Mode, b.Mode = m1, m2
+					pairs = append(pairs, C18Pair{a, b})
+				}
 			}
 		}
 		byAxis := map[string][]C18Pair{}
